@@ -575,6 +575,8 @@ class Interp:
         if m is not None:
             return m
         local = fn.get("resolved_local", fn.get("local")) and path in self.f.bodies
+        if fn.get("resolved_kind") == "Virtual":
+            local = False   # dynamic dispatch: the trait's default body is not what runs
         if local and not self.inline_derived and (self.f.bodies[path].get("impl") or {}).get("derived"):
             # compiler-derived trait impls (Clone, PartialEq, Debug ...) are kept as opaque calls
             local = False
